@@ -187,6 +187,106 @@ def fr_form(chain, blk):
     return own + (':after-version-clause' if earlier and own in ('const', 'else') else '')
 
 
+# ---- several uses in one project: every use site is judged on its own -----------------------------------------------------------
+# A project uses features at several places, some inside a taken version_compare() block, some outside, the same feature or another
+# one: what was decided for one site (under the range in force there) says nothing about the next.  Every sequence of <= 2 (thorough
+# 3) sites over guard x feature x declared range; the warning carries the line of the site.
+FS_GUARDS = [None, ('ge', '1.5'), ('ge', '0.60'), ('lt', '99.0'), ('ge', '99.0')]
+FS_FEATURES = [("'a'.splitlines()", '1.2.0'), ("'a'.replace('a', 'b')", '0.58.0')]
+FS_PLACES = ['same', 'subdir']
+
+
+def fs_program(sites, decl, place):
+    files = {}
+    lines = ["project('p', meson_version: '%s')" % decl]
+    site_line = []
+    for k, (g, f) in enumerate(sites):
+        tgt, fname = lines, 'meson.build'
+        if place == 'subdir' and k == len(sites) - 1 and k > 0:
+            lines.append("subdir('d')")
+            tgt, fname = [], 'd/meson.build'
+        if g is not None:
+            tgt.append("if meson.version().version_compare('%s%s')" % (FR_SP[g[0]], g[1]))
+            tgt.append("  message('SITE%d')" % k)
+            tgt.append('  x%d = %s' % (k, FS_FEATURES[f][0]))
+            site_line.append((fname, len(tgt)))
+            tgt.append('endif')
+        else:
+            tgt.append("message('SITE%d')" % k)
+            tgt.append('x%d = %s' % (k, FS_FEATURES[f][0]))
+            site_line.append((fname, len(tgt)))
+        if tgt is not lines:
+            files['d/meson.build'] = '\n'.join(tgt) + '\n'
+    files['meson.build'] = '\n'.join(lines) + '\n'
+    return files, site_line
+
+
+def fs_jobs(thorough):
+    sites = [(g, f) for g in FS_GUARDS for f in range(len(FS_FEATURES))]
+    seqs = [(a,) for a in sites] + [(a, b) for a in sites for b in sites]
+    if thorough:
+        seqs += [(a, b, c) for a in sites for b in sites for c in sites]
+    decls = ['>=0.50', '>=1.5', '>=0.50, <1.0'] if thorough else ['>=0.50', '>=1.5']
+    return [('sites', sq, d, pl) for sq in seqs for d in decls for pl in FS_PLACES if pl == 'same' or len(sq) > 1]
+
+
+def fs_run(job):
+    import os, shutil, tempfile
+    from verif import mesonproc as mp
+    from verif.core import scratch_root
+    _, sites, decl, place = job
+    root = tempfile.mkdtemp(prefix='c19fs.', dir=scratch_root())
+    try:
+        files, site_line = fs_program(sites, decl, place)
+        for rel, text in files.items():
+            os.makedirs(os.path.dirname(os.path.join(root, rel)), exist_ok=True)
+            with open(os.path.join(root, rel), 'w') as f:
+                f.write(text)
+        r = mp.run_meson(['setup', '--backend=none', 'b'], root, timeout=300)
+        out = r.out + r.err
+        ran = set(int(m) for m in re.findall(r'Message: SITE([0-9]+)', out))
+        warned = set(re.findall(r"^(?:\.\./)?([\w/.]+):(\d+): WARNING: Project targets .* but uses feature introduced in '([0-9.]+)'", out, re.M))
+        return job, r.rc, ran, warned, files, site_line, out[-500:]
+    finally:
+        shutil.rmtree(root, ignore_errors=True)
+
+
+def part_feature_sites(ck, here):
+    n = need_n = lost = guarded_then_unguarded = 0
+    for job, rc, ran, warned, files, site_line, tail in pmap(fs_run, fs_jobs(ck.thorough)):
+        _, sites, decl, place = job
+        n += 1
+        if rc != 0:
+            ck.violation('C19:featuresites:setup-failed', 'meson setup failed on %r: %s' % (files, tail[-300:]), {'files': files})
+            continue
+        declared = [v for v in FR_PROBES if all(REF_HOLDS[{'>=': 'ge', '<': 'lt'}[re.match('[<>=]+', c.strip()).group(0)]](
+            ref_cmp(v, re.sub('^[<>=]+', '', c.strip()))) for c in decl.split(','))]
+        for k, (g, f) in enumerate(sites):
+            runs_here = g is None or REF_HOLDS[g[0]](ref_cmp(here, g[1]))
+            if (k in ran) != runs_here:
+                ck.violation('C19:featuresites:wrong-block', 'at %s site %d should%s run: %r' % (here, k, '' if runs_here else ' not', files), {'files': files})
+                break
+            if not runs_here:
+                continue
+            since = FS_FEATURES[f][1]
+            witness = [v for v in declared if (g is None or REF_HOLDS[g[0]](ref_cmp(v, g[1]))) and ref_cmp(v, since) < 0]
+            if not witness:
+                continue
+            need_n += 1
+            earlier_same = [j for j in range(k) if sites[j][1] == f and sites[j][0] is not None]
+            guarded_then_unguarded += bool(earlier_same)
+            fname, line = site_line[k]
+            if (fname, str(line), since) not in warned:
+                lost += 1
+                ck.violation('C19:featuresites:lost-warning:%s' % ('after-guarded-use-of-the-same-feature' if earlier_same else 'site-%d' % k),
+                             'use site %d (%s:%d, %s, new in %s) runs at version %s of the declared range %r but no FeatureNew warning names it: %r'
+                             % (k, fname, line, FS_FEATURES[f][0], since, witness[0], decl, files), {'files': files, 'site': k, 'where': [fname, line, since]})
+    ck.part('feature_sites', programs=n, guards=len(FS_GUARDS), features=len(FS_FEATURES), sites_needing_a_warning=need_n, lost=lost,
+            needing_sites_after_a_guarded_use_of_the_same_feature=guarded_then_unguarded)
+    ck.require(need_n > 100 and guarded_then_unguarded > 10, 'feature sites family is vacuous')
+    return n
+
+
 def part_featurerange(ck):
     from mesonbuild import coredata
     here = coredata.version
@@ -239,6 +339,7 @@ def part_featurerange(ck):
     ck.part('featurerange_exits', programs=xn, guarded_block_taken=xt, warning_required=xw, lost=xlost, exits=len(FR_EXITS))
     ck.require(xt >= 8 and xw >= 8, 'featurerange exits family is vacuous')
     n += xn
+    n += part_feature_sites(ck, here)
     ck.part('featurerange', programs=n, warning_required=expected_warn, warned=warned_n, lost=lost, clause_forms=len(fr_clauses(ck.thorough)),
             block_positions=len(blocks_seen))
     ck.require(expected_warn > 50 and warned_n < n and len(blocks_seen) >= 6, 'featurerange family is vacuous')
@@ -556,6 +657,23 @@ def replay(ck):
     if 'a' in d and 'b' in d:
         a, b = Version(d['a']), Version(d['b'])
         print({op: PYOP[op](a, b) for op in OPS}, 'ref', ref_cmp(d['a'], d['b']))
+    if 'files' in d and 'where' in d:
+        import os, shutil, tempfile
+        from verif import mesonproc as mp
+        from verif.core import scratch_root
+        mp.preimport()
+        root = tempfile.mkdtemp(prefix='c19rp.', dir=scratch_root())
+        for rel, text in d['files'].items():
+            os.makedirs(os.path.dirname(os.path.join(root, rel)), exist_ok=True)
+            with open(os.path.join(root, rel), 'w') as f:
+                f.write(text)
+        r = mp.run_meson(['setup', '--backend=none', 'b'], root, timeout=300)
+        out = r.out + r.err
+        shutil.rmtree(root, ignore_errors=True)
+        warned = set(re.findall(r"^(?:\.\./)?([\w/.]+):(\d+): WARNING: Project targets .* but uses feature introduced in '([0-9.]+)'", out, re.M))
+        fname, line, since = d['where']
+        print('expected: a FeatureNew warning for %s:%s (feature of %s); observed warnings: %s' % (fname, line, since, sorted(warned)))
+        sys.exit(0 if (fname, str(line), since) in warned else 1)
     sys.exit(0)
 
 
